@@ -60,6 +60,16 @@ def build_model(spec: Dict[str, Any]) -> List[bytes]:
     parts = [doc]
     if spec.get("split", 1) > 1:
         parts = models.split(doc, random.Random(spec["split_seed"]), spec["split"])
+    if spec.get("overlap_seed") is not None and len(parts) > 1:
+        # a later file declares again (identically) some of what an earlier file declares, next to its
+        # own declarations: "the first model extended in order by the others' declarations"
+        ro = random.Random(spec["overlap_seed"])
+        for sec in models.SECTIONS:
+            src = parts[0][sec]
+            if src and ro.random() < 0.6:
+                for it in ro.sample(src, min(len(src), ro.randint(1, 2))):
+                    tgt = parts[ro.randrange(1, len(parts))][sec]
+                    tgt.insert(ro.randint(0, len(tgt)), copy.deepcopy(it))
     if spec.get("repeat"):
         # one more file without declarations; listed more than once on the command line (see path_list)
         parts = parts + [{"metaData": copy.deepcopy(parts[0]["metaData"]), **{s_: [] for s_ in models.SECTIONS}}]
@@ -92,6 +102,9 @@ def gen_model_spec(r: random.Random, plugin: str, tier: str, allow_full: bool = 
     if r.random() < 0.3:
         spec["split"] = r.choice([2, 2, 3])
         spec["split_seed"] = r.randrange(2**40)
+        if plugin != "python" and r.random() < 0.25:
+            # (the python plugin of the pinned tree refuses some duplicated declarations)
+            spec["overlap_seed"] = r.randrange(2**40)
         if r.random() < 0.4:
             # a path that occurs more than once in the list of model files
             spec["repeat"] = sorted(r.randint(0, spec["split"]) for _ in range(r.choice([2, 2, 3])))
@@ -120,6 +133,7 @@ def variant_of(spec: Dict[str, Any], r: random.Random) -> Dict[str, Any]:
         v = {"base": "sub", "sub_seed": r.randrange(2**40), "lo": 2, "hi": 6, "n_edits": 2, "edits_seed": r.randrange(2**40)}
     v.pop("split", None)
     v.pop("repeat", None)
+    v.pop("overlap_seed", None)
     return v
 
 
@@ -260,7 +274,7 @@ def execute(h: Dict[str, Any]) -> Dict[str, Any]:
     viol: List[Dict[str, str]] = []
     probes = {k: 0 for k in ["stale_owned_placed", "stale_realname_placed", "stale_casename_placed", "foreign_placed", "empty_pkg_dir_placed", "committed_copy_placed",
                              "cleanup_removed_stale", "stale_overwritten", "fault_fired", "fault_not_reached", "faulted_run_failed",
-                             "faulted_run_left_partial", "other_plugin_tree", "merge_files", "model_path_repeated", "different_model_before", "listing_permuted",
+                             "faulted_run_left_partial", "other_plugin_tree", "merge_files", "model_path_repeated", "model_files_overlap", "different_model_before", "listing_permuted",
                              "test_dir_used", "uuid_checked", "ascii_locale", "clock_shifted", "long_output_path", "crlf_main_rs", "symlinked_output_dir", "python_optimize", "path_spelled_relative_or_odd", "other_machine_identity"]}
     faults_fired: Dict[str, int] = {}
     evlog: List[Any] = []
@@ -271,6 +285,8 @@ def execute(h: Dict[str, Any]) -> Dict[str, Any]:
             probes["merge_files"] += 1
         if len(set(files_M)) < len(files_M):
             probes["model_path_repeated"] += 1
+        if h["model"].get("overlap_seed") is not None:
+            probes["model_files_overlap"] += 1
         # ---- reference: clean room -----------------------------------------------------------------
         ref_out = w.path("ref_out")
         ref_td = w.path("ref_td")
@@ -501,6 +517,7 @@ def minimise(h: Dict[str, Any], sig: str) -> Tuple[Dict[str, Any], Dict[str, Any
         lambda c: c.update(crlf_main=False),
         lambda c: c.update(out_symlink=False),
         lambda c: c["model"].pop("repeat", None),
+        lambda c: c["model"].pop("overlap_seed", None),
         lambda c: (c["model"].pop("split", None), c["model"].pop("repeat", None)),
         lambda c: c["model"].pop("compact", None),
         lambda c: c["model"].update(n_edits=0),
